@@ -5,9 +5,14 @@ use model::Report;
 use crate::common::Ctx;
 
 pub mod c01;
+pub mod c03;
 pub mod c04;
+pub mod c05;
 pub mod c07;
 pub mod c08;
+pub mod c12;
+pub mod c13;
+pub mod arith;
 pub mod c14;
 pub mod shared;
 
@@ -29,9 +34,13 @@ pub fn run_worker(what: &str, ctx: &Ctx, extra: &[String]) {
 pub fn run(what: &str, ctx: &Ctx, _extra: &[String]) -> Option<Report> {
     Some(match what {
         "C01" => c01::run(ctx),
+        "C03" => c03::run(ctx),
         "C04" => c04::run(ctx),
+        "C05" => c05::run(ctx),
         "C07" => c07::run(ctx),
         "C08" => c08::run(ctx),
+        "C12" => c12::run(ctx),
+        "C13" => c13::run(ctx),
         _ => return None,
     })
 }
